@@ -27,7 +27,7 @@ import (
 
 func init() {
 	mon.RegisterCfg("C12", mon.Config{
-		Rule: "table strata: hmtx/hhea (all (n, constant-tail) with n<=40, random n, extremes), caret slopes, head, maxp, OS/2, post Info values through Encode/Decode with an independent reader as second opinion; font strata: generated fonts are written and the derived fields of hhea/head/OS2 in the written bytes are recomputed from their definitions by plain offset readers; the font's metric queries are compared with the outlines and with each other. distinct = distinct table values / written files (hash)",
+		Rule: "table strata: hmtx/hhea (all (n, constant-tail) with n<=40, random n, extremes), caret slopes, head, maxp, OS/2, post Info values through Encode/Decode with an independent reader as second opinion; font strata: generated fonts are written and the derived fields of hhea/head/OS2 in the written bytes are recomputed from their definitions by plain offset readers; the font's metric queries are compared with the outlines and with each other. distinct = distinct table values / written files (hash) Stratum tables-concurrent: eight goroutines encode tables of their own at the same time and get what they get alone.",
 		Assumptions: []string{
 			"TrueType glyph boxes are the stored glyph headers (the generator stores the true bounds of all points)",
 			"OS/2 average width may use any rounding (within 1 of the exact mean)",
